@@ -34,15 +34,21 @@ VARIABLES W,       \* input bytes of the run               } fixed during a run;
           ret,     \* result of the invocation that just returned: 1 / 0, -1 none
           exc,     \* exception in flight: [who, at, cls, m, n] or NoExc
           q,       \* events emitted and not yet taken by the observer
-          done     \* the run is over: 1 / 0 / 2 (result), -1 while running
+          done,    \* the run is over: 1 / 0 / 2 (result), -1 while running
+          aux      \* [nsid: serial number of the last state object created (vt::S1 / vt::S2 count their instances),
+                   \*  end: logical end of the data (limit_bytes moves it), dep: nesting depth counted by the depth guards]
 
-mvars == <<fr, cur, ret, exc, q, done>>
+mvars == <<fr, cur, ret, exc, q, done, aux>>
 
 D == INSTANCE PegDen WITH Nodes <- Nodes, W <- W
 
 \* m = 1: the message names raise< T >'s T (Control< T >::raise), n = 1: thrown by raise_nested
 NoExc == [who |-> 0, at |-> 0, cls |-> 0, m |-> 0, n |-> 0]
 N == Len(W)
+End == aux.end
+Aux0 == [nsid |-> 0, end |-> Len(W), dep |-> 0]
+\* the depth counter exists in input_with_depth only (Cfg.cls = 1); otherwise the observer logs -1
+Dep == IF Cfg.cls = 1 THEN aux.dep ELSE -1
 \* the control family is a property of the invocation: control< C, R > switches it for a sub-tree
 FullVis(f) == f.cf \in {3, 4}
 HasUnw(f)  == f.cf \in {2, 4}
@@ -53,14 +59,19 @@ AKindOf(n, af) == D!AKind(n, af)
 
 \* events, in the field layout of harness/vtrace.hpp
 Cur3(o) == [b |-> D!PosByte(o, PosCtx), l |-> D!PosLine(o, PosCtx), c |-> D!PosCol(o, PosCtx)]
-EvEn(n, A, M, af, cf, o) == [k |-> "en", r |-> n, A |-> A, M |-> M, b |-> Cur3(o).b, l |-> Cur3(o).l, c |-> Cur3(o).c, o |-> o, e |-> N,
-                          af |-> af, cf |-> cf, d |-> -1, s |-> 0]
-EvEx(n, v, o) == [k |-> "ex", r |-> n, v |-> v, b |-> Cur3(o).b, l |-> Cur3(o).l, c |-> Cur3(o).c, o |-> o, e |-> N, d |-> -1]
-EvXc(n, cls, o) == [k |-> "xc", r |-> n, x |-> cls, b |-> Cur3(o).b, l |-> Cur3(o).l, c |-> Cur3(o).c, o |-> o, e |-> N, d |-> -1]
-EvHook(k, n, cf, o) == [k |-> k, r |-> n, b |-> Cur3(o).b, l |-> Cur3(o).l, c |-> Cur3(o).c, o |-> o, e |-> N, cf |-> cf]
-EvAp(n, af, beg, o, v) == [k |-> "ap", r |-> n, af |-> af, b |-> Cur3(beg).b, l |-> Cur3(beg).l, c |-> Cur3(beg).c, o |-> beg, eo |-> o,
-                            n |-> o - beg, io |-> o, v |-> v, s |-> 0]
-EvA0(n, af, o, v) == [k |-> "a0", r |-> n, af |-> af, io |-> o, v |-> v, s |-> 0]
+EvEn(n, A, M, af, cf, o, st) == [k |-> "en", r |-> n, A |-> A, M |-> M, b |-> Cur3(o).b, l |-> Cur3(o).l, c |-> Cur3(o).c, o |-> o, e |-> End,
+                          af |-> af, cf |-> cf, d |-> Dep, s |-> st]
+EvEx(n, v, o) == [k |-> "ex", r |-> n, v |-> v, b |-> Cur3(o).b, l |-> Cur3(o).l, c |-> Cur3(o).c, o |-> o, e |-> End, d |-> Dep]
+EvXc(n, cls, o) == [k |-> "xc", r |-> n, x |-> cls, b |-> Cur3(o).b, l |-> Cur3(o).l, c |-> Cur3(o).c, o |-> o, e |-> End, d |-> Dep]
+EvHook(k, n, cf, o) == [k |-> k, r |-> n, b |-> Cur3(o).b, l |-> Cur3(o).l, c |-> Cur3(o).c, o |-> o, e |-> End, cf |-> cf]
+EvAp(n, af, beg, o, v, st) == [k |-> "ap", r |-> n, af |-> af, b |-> Cur3(beg).b, l |-> Cur3(beg).l, c |-> Cur3(beg).c, o |-> beg, eo |-> o,
+                                n |-> o - beg, io |-> o, v |-> v, s |-> st]
+EvA0(n, af, o, v, st) == [k |-> "a0", r |-> n, af |-> af, io |-> o, v |-> v, s |-> st]
+\* the instrumented state classes log their construction (sid, position and outer state they were given; -1 / -1 when
+\* default-constructed), success( in, outer states... ) and destruction
+EvSc(sid, o, os) == [k |-> "sc", sid |-> sid, o |-> o, os |-> os]
+EvSs(sid, o, os) == [k |-> "ss", sid |-> sid, b |-> Cur3(o).b, l |-> Cur3(o).l, c |-> Cur3(o).c, o |-> o, e |-> End, os |-> os]
+EvSd(sid) == [k |-> "sd", sid |-> sid]
 \* actions listed in if_apply / apply / apply0 are called by the rule itself (internal/apply_single.hpp), they log themselves
 EvIa(n, beg, o, v) == [k |-> "ia", n |-> n, b |-> Cur3(beg).b, l |-> Cur3(beg).l, c |-> Cur3(beg).c, o |-> beg, eo |-> o, v |-> v]
 EvI0(n, v) == [k |-> "i0", n |-> n, v |-> v]
@@ -72,7 +83,15 @@ IaEvents(pp, beg, end, zero) ==
 
 \* a frame: node, apply mode, requested rewind mode, action family, program counter, loop index,
 \* sv: cursor saved by the rule's own guard (-1 none), mg: cursor saved by match()'s guard (-1 none), av: action result
-Frame(n, A, M, af, cf) == [n |-> n, A |-> A, M |-> M, af |-> af, cf |-> cf, pc |-> "enter", i |-> 0, lp |-> 0, sv |-> -1, mg |-> -1, entry |-> -1]
+\* s: the innermost state the invocation was given (0 none), ns: state object created by this invocation (0 none) and
+\* nsk how: 1 the rule state< S, R >, 2 a state-switching action; re = 1: re-entry of Control< Rule >::match by a
+\* change_action*: the switch is not applied again
+FrameS(n, A, M, af, cf, st, re) == [n |-> n, A |-> A, M |-> M, af |-> af, cf |-> cf, pc |-> "enter", i |-> 0, lp |-> 0, sv |-> -1, mg |-> -1,
+                                    entry |-> -1, s |-> st, ns |-> 0, nsk |-> 0, re |-> re, oe |-> -1, dg |-> 0, nouw |-> 0]
+Frame(n, A, M, af, cf) == FrameS(n, A, M, af, cf, 0, 0)
+\* oe: the end of the data saved by limit_bytes' guard (-1 none), dg = 1: holds a depth guard, nouw = 1: the exception in
+\* flight was raised by the limit action outside match< Rule >(): no unwind hook, no guard of this invocation is left
+KidS(f) == IF f.ns > 0 THEN f.ns ELSE f.s
 
 Top == fr[Len(fr)]
 SetTop(f) == [fr EXCEPT ![Len(fr)] = f]
@@ -80,10 +99,21 @@ Push(f) == Append(fr, f)
 Pop == SubSeq(fr, 1, Len(fr) - 1)
 
 MInit == /\ fr = <<Frame(Cfg.g, Cfg.A, Cfg.M, Cfg.af, Cfg.cf)>>
-         /\ cur = 0 /\ ret = -1 /\ exc = NoExc /\ q = <<>> /\ done = -1
+         /\ cur = 0 /\ ret = -1 /\ exc = NoExc /\ q = <<>> /\ done = -1 /\ aux = Aux0
 
 \* the action Action< Rule > in family af: what the control dispatches after the body matched [beg, cur)
-ActKind(f) == IF f.A = 1 /\ Enabled(f) THEN AKindOf(f.n, f.af) ELSE 0
+\* family 5: a rule that carries a switch (table field sw) has the change_* class as its action: no apply / apply0
+SwOf(f) == IF f.af = 5 /\ f.re = 0 THEN Nodes[f.n].sw ELSE 0
+\* family 4: a rule that carries a limit (table field lim = kind * 1000 + N) has limit_depth< N > (1), limit_bytes< N > (2) or
+\* check_bytes< N > (3) as its action; Control< limit_xxx< N > >::raise makes the observer log "ra" for that class
+LimOf(f) == IF f.af = 4 THEN Nodes[f.n].lim ELSE 0
+LimK(f) == LimOf(f) \div 1000
+LimN(f) == LimOf(f) % 1000
+LimClass(f) == LET nm == (IF LimK(f) = 1 THEN "tao::pegtl::limit_depth<" ELSE "tao::pegtl::limit_bytes<") \o ToString(LimN(f)) \o "ul>"
+                   S == {m \in 1..Len(Nodes) : Nodes[m].name = nm}
+               IN IF S = {} THEN 0 ELSE CHOOSE m \in S : TRUE
+Min2(a, b) == IF a < b THEN a ELSE b
+ActKind(f) == IF f.A = 1 /\ Enabled(f) /\ ~(f.af = 5 /\ Nodes[f.n].sw > 0) /\ f.af # 4 THEN AKindOf(f.n, f.af) ELSE 0
 UseGuard(f) == ActKind(f) \in {1, 3, 4, 5, 6}         \* has_apply || has_apply0_bool   (2, 7: void apply0 -> no guard)
 \* rewind mode the body gets from match(): optional if match() took the guard, else the requested mode
 BodyM(f) == IF Enabled(f) /\ UseGuard(f) THEN 0 ELSE f.M
@@ -91,15 +121,43 @@ BodyM(f) == IF Enabled(f) /\ UseGuard(f) THEN 0 ELSE f.M
 -----------------------------------------------------------------------------
 (* Control< Rule >::match and match< Rule >(): entering *)
 Enter ==
-   LET f == Top IN
+   LET f == Top
+       sw == SwOf(f)                    \* normal< Rule >::match: Action< Rule >::match, if there is one, takes over (whatever A and enable are)
+       sid == aux.nsid + 1
+       mkstate == sw \in {1, 2, 4, 5, 9, 10}
+       \* change_state< S1 > / change_action_and_state< A, S1 >: S1( in, st... ); change_states / S2: default-constructed
+       sc == IF sw \in {1, 4} THEN <<EvSc(sid, cur, f.s)>> ELSE IF mkstate THEN <<EvSc(sid, -1, -1)>> ELSE <<>>
+       en == EvEn(f.n, f.A, f.M, f.af, f.cf, cur, f.s)
+       \* change_control / enable_action / disable_action call match< Rule >() with one parameter changed
+       lk == LimK(f)
+       depth == lk = 1 /\ Enabled(f)                 \* limit_depth counts rules whose control is enabled only
+       tooDeep == depth /\ aux.dep + 1 > LimN(f)
+       end2 == IF lk = 2 THEN cur + Min2(End - cur, LimN(f)) ELSE End
+       g == [f EXCEPT !.cf = IF sw = 6 THEN 2 ELSE f.cf, !.A = IF sw = 7 THEN 1 ELSE IF sw = 8 THEN 0 ELSE f.A,
+                      !.ns = IF mkstate THEN sid ELSE 0, !.nsk = IF mkstate THEN 2 ELSE 0, !.entry = cur,
+                      !.oe = IF lk = 2 THEN End ELSE -1, !.dg = IF depth /\ ~tooDeep THEN 1 ELSE 0]
+   IN
    /\ exc = NoExc /\ done = -1 /\ q = <<>> /\ f.pc = "enter"
-   /\ fr' = SetTop([f EXCEPT !.pc = "body", !.entry = cur, !.mg = IF Enabled(f) /\ UseGuard(f) THEN cur ELSE -1])
-   /\ q' = <<EvEn(f.n, f.A, f.M, f.af, f.cf, cur)>> \o (IF Enabled(f) THEN <<EvHook("st", f.n, f.cf, cur)>> ELSE <<>>)
-   /\ UNCHANGED <<cur, ret, exc, done>>
+   /\ aux' = [aux EXCEPT !.nsid = IF mkstate THEN sid ELSE @, !.end = end2, !.dep = IF depth /\ ~tooDeep THEN @ + 1 ELSE @]
+   /\ IF tooDeep
+      THEN \* limit_depth: the guard counts this level, the check raises, the guard is undone on the way out
+           /\ fr' = SetTop([g EXCEPT !.pc = "thrown", !.nouw = 1])
+           /\ q' = <<en, EvHook("ra", LimClass(f), f.cf, cur)>>
+           /\ exc' = [who |-> D!XDepth, at |-> cur, cls |-> 1, m |-> 0, n |-> 0]
+      ELSE /\ exc' = exc
+           /\ IF sw \in {3, 4, 5, 10}
+              THEN \* change_action*: Control< Rule >::match< A, M, NewAction, Control >( in, [s] ): the same rule is entered again
+                   /\ fr' = Append(SetTop([g EXCEPT !.pc = "sw"]), FrameS(f.n, f.A, f.M, 1, f.cf, KidS(g), 1))
+                   /\ q' = <<en>> \o sc
+              ELSE \* match< Rule >(): guard iff there is an apply or a bool apply0, start hook (limit_bytes has moved the end)
+                   /\ fr' = SetTop([g EXCEPT !.pc = "body", !.mg = IF Enabled(g) /\ UseGuard(g) THEN cur ELSE -1])
+                   /\ q' = <<en>> \o sc \o (IF Enabled(g) THEN <<[EvHook("st", f.n, g.cf, cur) EXCEPT !.e = end2]>> ELSE <<>>)
+   /\ ret' = -1
+   /\ UNCHANGED <<cur, done>>
 
 \* result of an atom at the cursor: <<matched?, new cursor>>  (one size / peek test, then one bump)
 AtomStep(n) ==
-   LET r == D!DenX(D!Lift(n), cur, [A |-> 0, lim |-> N, fam |-> 0, vis |-> 0, eol |-> Cfg.eol, ib |-> Cfg.ib, il |-> Cfg.il, ic |-> Cfg.ic, dep |-> 0], 3)
+   LET r == D!DenX(D!Lift(n), cur, [A |-> 0, lim |-> End, fam |-> 0, vis |-> 0, eol |-> Cfg.eol, ib |-> Cfg.ib, il |-> Cfg.il, ic |-> Cfg.ic, dep |-> 0], 3)
    IN IF r.k = "T" THEN <<1, r.e>> ELSE <<0, cur>>
 \* rules without sub-rules that match in one step (their peeks and bumps are not modelled individually)
 NonAtoms == {"raise", "apply", "apply0", "opaque", "seq", "sor", "raw_string"}     \* raw_string calls its helper rules through the control
@@ -116,7 +174,7 @@ BodyDone(f, v) == /\ fr' = SetTop([f EXCEPT !.pc = "after", !.i = v])
 
 \* call sub-rule number j of the current frame with modes (A, M)
 CallKid(f, j, A, M, pc2) ==
-   /\ fr' = Append(SetTop([f EXCEPT !.pc = pc2, !.i = j]), Frame(Nodes[f.n].ikids[j], A, M, f.af, f.cf))
+   /\ fr' = Append(SetTop([f EXCEPT !.pc = pc2, !.i = j]), FrameS(Nodes[f.n].ikids[j], A, M, f.af, f.cf, KidS(f), 0))
    /\ ret' = -1
    /\ UNCHANGED <<cur, exc, q, done>>
 
@@ -129,6 +187,7 @@ Body ==
        M == BodyM(f)
    IN
    /\ exc = NoExc /\ done = -1 /\ q = <<>> /\ f.pc \in {"body", "k"}
+   /\ aux' = IF op = "state" /\ f.pc = "body" THEN [aux EXCEPT !.nsid = @ + 1] ELSE aux
    /\ CASE IsAtom(f.n) ->
              LET a == AtomStep(f.n) IN cur' = a[2] /\ BodyDone(f, a[1])
         \* internal/seq.hpp: one rule forwards M; otherwise guard< M >, all sub-rules optional
@@ -194,10 +253,10 @@ Body ==
              IF f.pc = "body" THEN CallKid([f EXCEPT !.sv = IF M = 1 THEN cur ELSE -1], 1, f.A, 1, "k")
              ELSE IF f.i = 1 /\ ret = 1 THEN cur' = cur /\ BodyDone(f, 1)
              ELSE IF f.i = 1 /\ nk = 1
-                  THEN IF cur = N THEN /\ cur' = IF f.sv >= 0 THEN f.sv ELSE cur
+                  THEN IF cur = End THEN /\ cur' = IF f.sv >= 0 THEN f.sv ELSE cur
                                        /\ BodyDone(f, 0)
                        ELSE /\ cur' = cur + 1
-                            /\ fr' = Append(SetTop([f EXCEPT !.pc = "k", !.i = 1]), Frame(ks[1], f.A, 1, f.af, f.cf))
+                            /\ fr' = Append(SetTop([f EXCEPT !.pc = "k", !.i = 1]), FrameS(ks[1], f.A, 1, f.af, f.cf, KidS(f), 0))
                             /\ ret' = -1 /\ UNCHANGED <<exc, q, done>>
              ELSE IF f.i = 1 THEN CallKid(f, 2, f.A, 0, "k")
              ELSE IF ret = 0 THEN /\ cur' = IF f.sv >= 0 THEN f.sv ELSE cur
@@ -228,7 +287,7 @@ Body ==
              ELSE IF ret = 0 THEN cur' = cur /\ BodyDone(f, 1)
              ELSE IF f.lp = mx
                   THEN /\ NotAtOf(ks[1]) # {}
-                       /\ fr' = Append(SetTop([f EXCEPT !.pc = "k", !.lp = mx + 1]), Frame(CHOOSE m \in NotAtOf(ks[1]) : TRUE, f.A, 0, f.af, f.cf))
+                       /\ fr' = Append(SetTop([f EXCEPT !.pc = "k", !.lp = mx + 1]), FrameS(CHOOSE m \in NotAtOf(ks[1]) : TRUE, f.A, 0, f.af, f.cf, KidS(f), 0))
                        /\ ret' = -1 /\ UNCHANGED <<cur, exc, q, done>>
              ELSE CallKid([f EXCEPT !.lp = f.lp + 1], 1, f.A, IF f.lp + 1 <= mn THEN 0 ELSE 1, "k")
         \* internal/if_then_else.hpp: guard< M >; Cond required; Then / Else optional; Else is not tried after Then failed
@@ -241,9 +300,9 @@ Body ==
         [] op \in {"enable", "disable", "action", "control"} ->
              IF f.pc = "body"
              THEN /\ fr' = Append(SetTop([f EXCEPT !.pc = "k", !.i = 1]),
-                                  Frame(ks[1], IF op = "enable" THEN 1 ELSE IF op = "disable" THEN 0 ELSE f.A, M,
-                                        IF op = "action" THEN Nodes[f.n].ip[1] ELSE f.af,
-                                        IF op = "control" THEN Nodes[f.n].ip[1] ELSE f.cf))
+                                  FrameS(ks[1], IF op = "enable" THEN 1 ELSE IF op = "disable" THEN 0 ELSE f.A, M,
+                                         IF op = "action" THEN Nodes[f.n].ip[1] ELSE f.af,
+                                         IF op = "control" THEN Nodes[f.n].ip[1] ELSE f.cf, KidS(f), 0))
                   /\ ret' = -1 /\ UNCHANGED <<cur, exc, q, done>>
              ELSE cur' = cur /\ BodyDone(f, ret)
         \* internal/try_catch_raise_nested.hpp: required guard; sub-rule optional (a caught exception is handled in Unwind)
@@ -263,7 +322,7 @@ Body ==
              ELSE IF f.i = 1
                   THEN IF ret = 0 THEN cur' = cur /\ BodyDone(f, 1)
                        ELSE /\ RestOf(ks) # {}
-                            /\ fr' = Append(SetTop([f EXCEPT !.pc = "k", !.i = 2]), Frame(CHOOSE m \in RestOf(ks) : TRUE, f.A, 0, f.af, f.cf))
+                            /\ fr' = Append(SetTop([f EXCEPT !.pc = "k", !.i = 2]), FrameS(CHOOSE m \in RestOf(ks) : TRUE, f.A, 0, f.af, f.cf, KidS(f), 0))
                             /\ ret' = -1 /\ UNCHANGED <<cur, exc, q, done>>
              ELSE /\ cur' = IF ret = 0 /\ f.sv >= 0 THEN f.sv ELSE cur
                   /\ BodyDone(f, ret)
@@ -273,11 +332,23 @@ Body ==
              ELSE IF f.i = 1
                   THEN IF ret = 0 THEN cur' = cur /\ BodyDone(f, 1)
                        ELSE /\ RestOf(ks) # {}
-                            /\ fr' = Append(SetTop([f EXCEPT !.pc = "k", !.i = 2]), Frame(CHOOSE m \in RestOf(ks) : TRUE, f.A, 0, f.af, f.cf))
+                            /\ fr' = Append(SetTop([f EXCEPT !.pc = "k", !.i = 2]), FrameS(CHOOSE m \in RestOf(ks) : TRUE, f.A, 0, f.af, f.cf, KidS(f), 0))
                             /\ ret' = -1 /\ UNCHANGED <<cur, exc, q, done>>
              ELSE IF ret = 1 THEN CallKid(f, 1, f.A, 1, "k")
              ELSE /\ cur' = IF f.sv >= 0 THEN f.sv ELSE cur
                   /\ BodyDone(f, 0)
+        \* internal/state.hpp: NewState s( in, st... ) or, if it cannot be constructed that way, NewState s; the sub-rule with
+        \* s as its only state and M forwarded; s.success( in, st... ) on success; s dies when match() returns
+        [] op = "state" ->
+             IF f.pc = "body"
+             THEN LET sid == aux.nsid + 1 IN
+                  /\ q' = IF Nodes[f.n].ip = <<1>> THEN <<EvSc(sid, -1, -1)>> ELSE <<EvSc(sid, cur, f.s)>>
+                  /\ fr' = Append(SetTop([f EXCEPT !.pc = "k", !.i = 1, !.ns = sid, !.nsk = 1]), FrameS(ks[1], f.A, M, f.af, f.cf, sid, 0))
+                  /\ ret' = -1 /\ UNCHANGED <<cur, exc, done>>
+             ELSE /\ cur' = cur
+                  /\ q' = (IF ret = 1 THEN <<EvSs(f.ns, cur, f.s)>> ELSE <<>>) \o <<EvSd(f.ns)>>
+                  /\ fr' = SetTop([f EXCEPT !.pc = "after", !.i = ret])
+                  /\ UNCHANGED <<ret, exc, done>>
         \* internal/apply.hpp, apply0.hpp: with actions enabled the listed actions run on an empty match; nothing is consumed
         [] op \in {"apply", "apply0"} ->
              LET pp == Nodes[f.n].ip
@@ -304,10 +375,11 @@ Body ==
 \* plus.hpp resumes its loop under a different label so that "the first attempt" can be told apart
 BodyPlusLoop ==
    LET f == Top IN
-   /\ exc = NoExc /\ done = -1 /\ q = <<>> /\ f.pc = "k2"
+   /\ exc = NoExc /\ done = -1 /\ q = <<>> /\ f.pc = "k2" /\ UNCHANGED aux
    /\ IF ret = 0 THEN cur' = cur /\ BodyDone(f, 1) ELSE CallKid(f, 1, f.A, 1, "k2")
 
-(* match< Rule >() after the body: action, success / failure hook, guard; then Control< Rule >::match returns *)
+(* match< Rule >() after the body: action, success / failure hook, guard; then what a limit action does after match()
+   returned; then Control< Rule >::match returns *)
 After ==
    LET f == Top
        v0 == f.i                                   \* what the body returned
@@ -319,11 +391,17 @@ After ==
        v == IF veto THEN 0 ELSE v0
        av == IF throws THEN 3 ELSE IF kind \in {1, 2, 5, 6, 7} THEN 0 ELSE IF veto THEN 2 ELSE 1
        actev == IF v0 = 1 /\ Enabled(f)
-                THEN (IF kind \in {1, 3, 5, 6} THEN <<EvAp(f.n, f.af, f.entry, cur, av)>>
-                      ELSE IF kind \in {2, 4, 7} THEN <<EvA0(f.n, f.af, cur, av)>>
+                THEN (IF kind \in {1, 3, 5, 6} THEN <<EvAp(f.n, f.af, f.entry, cur, av, f.s)>>
+                      ELSE IF kind \in {2, 4, 7} THEN <<EvA0(f.n, f.af, cur, av, f.s)>>
                       ELSE <<>>)
                 ELSE <<>>
        c2 == IF v = 0 /\ f.mg >= 0 THEN f.mg ELSE cur       \* match()'s guard restores on failure
+       lk == LimK(f)
+       \* limit_bytes: matched, the (moved) end reached, and it is not the real end; check_bytes: matched more than N bytes
+       limx == IF lk = 2 /\ v = 1 /\ cur = End /\ f.oe # cur THEN D!XBytes
+               ELSE IF lk = 3 /\ v = 1 /\ cur - f.entry > LimN(f) THEN D!XCheck ELSE 0
+       aux2 == [aux EXCEPT !.end = IF f.oe >= 0 THEN f.oe ELSE @, !.dep = IF f.dg = 1 THEN @ - 1 ELSE @]     \* the limit's guards are undone
+       hook == IF Enabled(f) THEN <<EvHook(IF v = 1 THEN "su" ELSE "fa", f.n, f.cf, cur)>> ELSE <<>>
    IN
    /\ exc = NoExc /\ done = -1 /\ q = <<>> /\ f.pc = "after"
    /\ IF throws
@@ -332,9 +410,21 @@ After ==
            /\ q' = actev
            \* the body has returned: the rule's own guard is gone, only match()'s guard (if any) is left to restore
            /\ fr' = SetTop([f EXCEPT !.pc = "thrown", !.sv = -1])
+           /\ UNCHANGED <<cur, ret, done, aux>>
+      ELSE IF limx # 0
+      THEN \* the limit action raises after match() returned true: no hook and no guard of this invocation is involved any more
+           /\ exc' = [who |-> limx, at |-> cur, cls |-> 1, m |-> 0, n |-> 0]
+           /\ q' = actev \o hook \o (IF lk = 2 THEN <<EvHook("ra", LimClass(f), f.cf, cur)>> ELSE <<>>)
+           /\ fr' = SetTop([f EXCEPT !.pc = "thrown", !.sv = -1, !.mg = -1, !.nouw = 1, !.oe = -1, !.dg = 0])
+           /\ aux' = aux2
            /\ UNCHANGED <<cur, ret, done>>
       ELSE /\ cur' = c2
-           /\ q' = actev \o (IF Enabled(f) THEN <<EvHook(IF v = 1 THEN "su" ELSE "fa", f.n, f.cf, cur)>> ELSE <<>>) \o <<EvEx(f.n, v, c2)>>
+           \* a state-switching action: Action< Rule >::success( in, s, st... ) if matched and A is action; then s dies
+           /\ q' = actev \o hook
+                   \o (IF f.nsk = 2 /\ v = 1 /\ f.A = 1 THEN <<EvSs(f.ns, c2, f.s)>> ELSE <<>>)
+                   \o (IF f.nsk = 2 THEN <<EvSd(f.ns)>> ELSE <<>>)
+                   \o <<[EvEx(f.n, v, c2) EXCEPT !.e = aux2.end, !.d = IF Cfg.cls = 1 THEN aux2.dep ELSE -1]>>
+           /\ aux' = aux2
            /\ IF Len(fr) = 1
               THEN /\ fr' = <<>> /\ done' = v /\ ret' = v
               ELSE /\ fr' = Pop /\ ret' = v /\ UNCHANGED done
@@ -347,6 +437,8 @@ Unwind ==
        nests == Nodes[f.n].iop = "try_catch_raise_nested" /\ f.pc = "k" /\ D!Catches(Nodes[f.n].ip[1], exc.who)
    IN
    /\ exc # NoExc /\ done = -1 /\ q = <<>>
+   /\ aux' = IF nests \/ catches THEN aux
+             ELSE [aux EXCEPT !.end = IF f.oe >= 0 THEN f.oe ELSE @, !.dep = IF f.dg = 1 THEN @ - 1 ELSE @]    \* a limit's guards are undone
    /\ IF nests
       THEN \* catch( ... ) { Control< Rule >::raise_nested( in.position( m.inputerator() ), st... ); }  -- no hook is called for it
            /\ exc' = [who |-> Nodes[f.n].ikids[1], at |-> f.sv, cls |-> 1, m |-> 0, n |-> 1]
@@ -362,15 +454,32 @@ Unwind ==
            \* guard of match() calls Control::unwind, then match()'s guard restores; only then does the observer's catch run
            LET c1 == IF f.sv >= 0 THEN f.sv ELSE cur
                c2 == IF f.mg >= 0 THEN f.mg ELSE c1
-           IN /\ q' = (IF Enabled(f) /\ HasUnw(f) THEN <<EvHook("uw", f.n, f.cf, c1)>> ELSE <<>>) \o <<EvXc(f.n, exc.cls, c2)>>
+              \* a state object dies where its scope is left: state< S, R >'s inside the rule (before the unwind hook), a
+              \* switching action's outside match() (after it); the outer invocation of a change_action* never ran match()
+           IN /\ q' = (IF f.nsk = 1 /\ f.pc = "k" THEN <<EvSd(f.ns)>> ELSE <<>>)
+                      \o (IF f.pc # "sw" /\ f.nouw = 0 /\ Enabled(f) /\ HasUnw(f) THEN <<EvHook("uw", f.n, f.cf, c1)>> ELSE <<>>)
+                      \o (IF f.nsk = 2 THEN <<EvSd(f.ns)>> ELSE <<>>)
+                      \o <<[EvXc(f.n, exc.cls, c2) EXCEPT !.e = aux'.end, !.d = IF Cfg.cls = 1 THEN aux'.dep ELSE -1]>>
               /\ cur' = c2
               /\ IF Len(fr) = 1
                  THEN fr' = <<>> /\ done' = 2
                  ELSE fr' = Pop /\ UNCHANGED done
               /\ UNCHANGED <<ret, exc>>
 
-\* the observer takes the oldest pending event
-Emit == /\ q # <<>> /\ q' = Tail(q) /\ UNCHANGED <<fr, cur, ret, exc, done>>
+(* the outer invocation of a change_action*: the re-entered Control< Rule >::match returned *)
+SwReturn ==
+   LET f == Top IN
+   /\ exc = NoExc /\ done = -1 /\ q = <<>> /\ f.pc = "sw" /\ UNCHANGED aux
+   /\ q' = (IF f.nsk = 2 /\ ret = 1 /\ f.A = 1 THEN <<EvSs(f.ns, cur, f.s)>> ELSE <<>>)
+           \o (IF f.nsk = 2 THEN <<EvSd(f.ns)>> ELSE <<>>)
+           \o <<EvEx(f.n, ret, cur)>>
+   /\ IF Len(fr) = 1
+      THEN fr' = <<>> /\ done' = ret
+      ELSE fr' = Pop /\ UNCHANGED done
+   /\ UNCHANGED <<cur, ret, exc>>
 
-MStep == Enter \/ Body \/ BodyPlusLoop \/ After \/ Unwind
+\* the observer takes the oldest pending event
+Emit == /\ q # <<>> /\ q' = Tail(q) /\ UNCHANGED <<fr, cur, ret, exc, done, aux>>
+
+MStep == Enter \/ Body \/ BodyPlusLoop \/ After \/ SwReturn \/ Unwind
 =============================================================================
